@@ -22,7 +22,7 @@ MAX_REPORTED = 6
 TERMINATION_PROPS = {"C03": "tree.terminates", "C16": "read.returns", "C18": "load.terminates"}
 
 
-class RunTimeout(Exception):
+class RunTimeout(BaseException):
     pass
 
 
@@ -86,6 +86,11 @@ def _work(prop, tier, base, indices, deadline, enum_cases=None):
                         case = guarded(mod.generate_case, rs, tier)
                     except Exception:
                         case = None
+                elif getattr(mod, "ENGINE", "") == "session":
+                    from . import session as _session
+                    cur = _session.CURRENT_CASE
+                    if cur is not None and cur.get("run_seed") == rs:
+                        case = copy.deepcopy(cur)     # the ops issued so far, the last one hangs
             if case is not None:
                 sig = "%s|timeout|" % TERMINATION_PROPS[prop]
                 out["violations"].append({"signature": sig, "case": case, "timeout": True,
